@@ -645,7 +645,9 @@ def check_primitives(repo):
                 '    self.trap(TrapCode.STACK_EMPTY)', pop.node)
     push = repo.func('qvm.cpu', 'QvmCpu.push')
     ok2 = pat.has('_B = CellValue(value_type, value)\n'
-                  'self.stack.append(_B)', push.node)
+                  'self.stack.append(_B)', push.node) or \
+        pat.has('self.stack.append(CellValue(value_type, value))',
+                push.node)
     trap = repo.func('qvm.cpu', 'QvmCpu.trap')
     ok3 = pat.has('raise Trapped(trap_code=code, trap_kwargs=kwargs)',
                   trap.node)
